@@ -67,10 +67,22 @@ fn lax_compose_case(t: &mut Tape, ctx: &mut Ctx) -> CheckResult {
     let f = Lax { q: gen::pending_pairs(t, &fd, 3, true), d: fd };
     let g = Lax { q: gen::pending_pairs(t, &gd, 3, true), d: gd };
     ctx.set_dump(format!("lax f = {}\nlax g = {}", f.pretty(), g.pretty()));
-    let c = Arrow::compose(&to_lax(&f), &to_lax(&g)).ok_or_else(|| ctx.fail("compose-defined", "lax composition undefined although the types match"))?;
-    let got = wf(ctx, "compose-wf", sv::from_strict(&c.to_strict()), "strict(lax f ; lax g)")?;
+    let via_api = t.chance(1, 2);
+    let (lf0, lg0) = if via_api { (to_lax_api(&f), to_lax_api(&g)) } else { (to_lax(&f), to_lax(&g)) };
+    let c = Arrow::compose(&lf0, &lg0).ok_or_else(|| ctx.fail("compose-defined", "lax composition undefined although the types match"))?;
+    let got = wf(ctx, "compose-wf", sv::from_strict(&c.clone().to_strict()), "strict(lax f ; lax g)")?;
     let want = f.strictify().unwrap().compose(&g.strictify().unwrap()).expect("types match");
     require_iso(ctx, "lax-compose-is-pushout", &got, &want, "strict(f ; g) for lax operands with pending unifications")?;
+    // the gluing carried out in place, by `quotient` and by its deprecated alias
+    #[allow(deprecated)]
+    for (name, which) in [("quotient", 0), ("quotient_witness", 1)] {
+        let mut glued = c.clone();
+        let r = if which == 0 { glued.quotient() } else { glued.quotient_witness() };
+        ensure!(ctx, r.is_ok(), "lax-compose-is-pushout", "{name}() of a lax composite of consistently labelled operands failed");
+        let got = wf(ctx, "compose-wf", from_lax(&glued), "lax composite after quotient")?;
+        ensure!(ctx, got.q.is_empty(), "lax-compose-is-pushout", "{name}() left pending unifications");
+        require_iso(ctx, "lax-compose-is-pushout", &got.d, &want, &format!("lax f ; g glued in place by {name}()"))?;
+    }
     // when the types differ (same arity, one label changed) every lax entry point reports failure
     if !f.d.t.is_empty() && al.nl >= 2 {
         let mut bad = g.clone();
